@@ -432,7 +432,7 @@ RangeItems(a, b, abs, unit, stp, crossSkip, ambiguous, items, j) ==
            x == Kth(a, b, abs, unit, stp, it[1])
        IN (IF crossSkip THEN <<>> ELSE
            (LET c == CmpPt(it[2], x) IN IF c = <<>> THEN <<>> ELSE << <<"value", <<it[1], c>> >> >>)
-           \o V("inside", ambiguous \/ Between(a, b, x), it[1]))
+           \o V("inside", Between(a, b, x), it[1]))
           \o RangeItems(a, b, abs, unit, stp, crossSkip, ambiguous, items, j + 1)
 J_range(e) ==
   LET a == PtOf(e.pre[1])  b == PtOf(e.pre[2])  p == e.post
@@ -446,15 +446,17 @@ J_range(e) ==
                    /\ SkippedDay(Z(a.z), Ord(lo.w[1], lo.w[2], lo.w[3]) - 1, Ord(hi.w[1], hi.w[2], hi.w[3]) + 1)
       last == Kth(a, b, abs, unit, stp, cnt - 1)
       nxt == Kth(a, b, abs, unit, stp, cnt)
-      \* CPython orders two values sharing a tzinfo by wall clock: no verdict on the stopping point if it
-      \* or an end-point sits on an ambiguous wall time (soundness rule 2)
+      \* CPython orders two values sharing a tzinfo by wall clock, ignoring fold: no verdict when an END-POINT
+      \* sits on an ambiguous wall time (soundness rule 2).  Against an unambiguous end-point the wall-clock
+      \* order of any value - ambiguous or not - is its order in time, so values stepping through a repeated
+      \* hour are judged like all others (`ambiguous` is only a label).
       endAmbig == zoned /\ (Ambig(a) \/ Ambig(b))
       ambiguous == zoned /\ (Ambig(last) \/ Ambig(nxt))
   IN IF hi.w[1] > 9900 \/ lo.w[1] < 100 THEN R(<<"out-of-range">>, <<>>)          \* soundness rule 3
      ELSE IF endAmbig THEN R(<<"ambiguous-end-point">>, <<>>)                      \* soundness rule 2
      ELSE IF p.k = "exc" THEN R(<<"exception">>, << <<"unexpected-exception", p.names>> >>)
      ELSE R(<<a.k, unit, N(stp), B(abs), N(IvDir(a, b, abs) + 1), B(crossSkip), B(ambiguous), B(p.capped)>>,
-       (IF ambiguous \/ crossSkip \/ p.capped \/ cnt < 1 THEN <<>>
+       (IF crossSkip \/ p.capped \/ cnt < 1 THEN <<>>
         ELSE V("stops-at-last-not-beyond", NotBeyond(a, b, abs, last) /\ ~NotBeyond(a, b, abs, nxt), cnt)
              \o V("end-yielded-iff-reachable", p.end_yielded = (PointOf(last) = PointOf(IvEnd(a, b, abs))), PointOf(last)))
        \o (IF cnt < 1 /\ ~p.capped THEN V("yields-start", FALSE, "the start is always yielded") ELSE <<>>)
